@@ -38,9 +38,15 @@ class Env:
         self.spurious_left = spurious
         self.timeouts_used = False
         self.empties = 0
+        self.exitcodes = {}
+        self.generation = getattr(self, "generation", 0)
+        self.leftover = getattr(self, "leftover", [])
 
     def reset(self, streams, healthy_len, spurious):
-        """a further call on the same MultiprocessingSolver object: new worker processes, new queue"""
+        """a further call on the same MultiprocessingSolver object: new worker processes; what the workers of the call before
+        had put and nobody read stays in the queue OBJECT they were given (it matters only if that object is used again)"""
+        self.leftover = [list(s[p:]) for s, p in zip(self.streams, self.ptr)]
+        self.generation += 1
         self.__init__(self.E, streams, healthy_len, spurious)
 
     def pending(self):
@@ -91,7 +97,14 @@ def make_stubs(env):
             w = self.idx
             if self.is_alive():
                 return None
-            return 0 if len(env.streams[w]) == env.healthy_len[w] else 1
+            if len(env.streams[w]) == env.healthy_len[w]:
+                return 0
+            # a worker that ended before its completion marker: killed (-9), crashed / uncaught exception (1), or ended by
+            # raising SystemExit / calling os._exit (status 0 although nothing was announced); chosen once per worker
+            codes = env.exitcodes
+            if w not in codes:
+                codes[w] = (1, -9, 0)[E.choose(3, "exitcode")]
+            return codes[w]
 
         def terminate(self):
             return None
@@ -101,13 +114,19 @@ def make_stubs(env):
 
     class FakeQueue:
         def __init__(self, *a, **k):
-            pass
+            self.gen = env.generation
 
         def get(self, block=True, timeout=None):
             env.gets += 1
             ready = env.pending()
             if not block:
                 timeout = 0
+            # a queue object created during an earlier call still holds what that call's workers put and nobody read
+            old = [w for w in range(len(env.leftover)) if env.leftover[w]] if self.gen < env.generation else []
+            if old:
+                k = E.choose(len(old) + (1 if ready else 0), "stale-or-fresh")
+                if k < len(old):
+                    return env.leftover[old[k]].pop(0)
             if not ready:
                 if timeout is None:
                     raise Hang("Queue.get() with no timeout and no message that can still arrive")
@@ -197,14 +216,17 @@ def make(mode, workers=2, K=2, faults=False, spurious=1, select=("C11",), known=
                 streams.append(msgs)
         any_dead = any(dead_at[w] < healthy_len[w] for w in range(workers))
         prior_streams = [[(w, None, SArray([0] * NSTAT, (NSTAT,), dtype="int64"))] for w in range(workers)]
-        env = Env(E, prior_streams, [1] * workers, 0) if prior else Env(E, streams, healthy_len, spurious)
+        if prior == "solve_abandoned":
+            # the first call is an enumeration the caller walks away from after its first solution
+            prior_streams = [[(w, SArray([-1000 - w], (1,), dtype="int32"), SArray([0] * NSTAT, (NSTAT,), dtype="int64"))] + ps for w, ps in enumerate(prior_streams)]
+        env = Env(E, prior_streams, [len(ps) for ps in prior_streams], 0) if prior else Env(E, streams, healthy_len, spurious)
         FP, FQ = make_stubs(env)
         saved = (MPS.Process, MPS.Queue)
         MPS.Process, MPS.Queue = FP, FQ
-        E.ctx = dict(dead_at=dead_at, nsol=[len(s) for s in streams], mode=mode)
+        E.ctx = dict(dead_at=dead_at, nsol=[len(s) for s in streams], mode=mode, env=env)
 
         def wit(m=None):
-            return dict(harness="reducer", mode=mode, prior=prior, workers=workers, nsol=[healthy_len[w] - 1 for w in range(workers)], dead_at=dead_at, healthy=[dead_at[w] == healthy_len[w] for w in range(workers)])
+            return dict(harness="reducer", mode=mode, prior=prior, workers=workers, nsol=[healthy_len[w] - 1 for w in range(workers)], dead_at=dead_at, healthy=[dead_at[w] == healthy_len[w] for w in range(workers)], exitcodes={str(w): c for w, c in env.exitcodes.items()})
 
         def viol(prop, kind, m=None, **kw):
             v = dict(prop=prop, kind=kind, site="MultiprocessingSolver." + ("solve" if mode == "solve" else "optimize"), cls=None, **wit(m))
@@ -215,7 +237,12 @@ def make(mode, workers=2, K=2, faults=False, spurious=1, select=("C11",), known=
             mp = MPS.MultiprocessingSolver([FakeWorker() for _ in range(workers)])
             if prior:
                 try:
-                    if prior == "solve":
+                    if prior == "solve_abandoned":
+                        g_ = mp.solve()
+                        next(g_)
+                        g_.close()
+                        first = []
+                    elif prior == "solve":
                         first = list(mp.solve())
                     else:
                         first = mp.minimize(0)
@@ -315,13 +342,13 @@ def make(mode, workers=2, K=2, faults=False, spurious=1, select=("C11",), known=
             # the reducer polls an empty queue for ever (get(timeout) raising Empty again and again): it does not return
             c = getattr(E, "ctx", {})
             E.acc.count("polls-forever")
-            E.acc.violation(dict(prop="C18" if faults else "C11", kind="blocks-forever", site="MultiprocessingSolver." + ("solve" if mode == "solve" else "optimize"), cls=None, harness="reducer", mode=mode, prior=prior, workers=workers, dead_at=c.get("dead_at"), nsol=c.get("nsol"), detail="polls the queue without end: " + str(exc)))
+            E.acc.violation(dict(prop="C18" if faults else "C11", kind="blocks-forever", site="MultiprocessingSolver." + ("solve" if mode == "solve" else "optimize"), cls=None, harness="reducer", mode=mode, prior=prior, workers=workers, dead_at=c.get("dead_at"), nsol=c.get("nsol"), exitcodes={str(w): x for w, x in c["env"].exitcodes.items()} if c.get("env") else {}, detail="polls the queue without end: " + str(exc)))
             return
         if kind == "hang":
             c = getattr(E, "ctx", {})
             E.acc.count("hang")
             dead = c.get("dead_at")
-            v = dict(prop="C18" if faults else "C11", kind="blocks-forever", site="MultiprocessingSolver." + ("solve" if mode == "solve" else "optimize"), cls=None, harness="reducer", mode=mode, prior=prior, workers=workers, dead_at=dead, nsol=c.get("nsol"), detail=str(exc))
+            v = dict(prop="C18" if faults else "C11", kind="blocks-forever", site="MultiprocessingSolver." + ("solve" if mode == "solve" else "optimize"), cls=None, harness="reducer", mode=mode, prior=prior, workers=workers, dead_at=dead, nsol=c.get("nsol"), exitcodes={str(w): x for w, x in c["env"].exitcodes.items()} if c.get("env") else {}, detail=str(exc))
             ks = [k for k in known if k["kind"] == "blocks-forever" and k["prop"] == v["prop"]]
             if ks:
                 v["cls"] = ks[0]["cls"]
